@@ -7,6 +7,7 @@
 #include "progs.hpp"
 #include "inspect.hpp"
 #include <sstream>
+#include <memory>
 #include <fstream>
 #include <regex>
 
@@ -115,6 +116,26 @@ void one_life(std::uint64_t seed, int flavour, Tally& T)
    T.printed_bytes += (long long)os.str().size();
 }
 
+// two Lexicons whose lives overlap; the older one is destroyed first, the younger one is then used (shadows re-read, printed)
+// and destroyed: everything a Lexicon hands out must live in that Lexicon or in the process-wide constants
+void two_overlapping_lives(std::uint64_t seed, Tally& T)
+{
+   Rng ra(seed), rb(seed ^ 0x9e3779b97f4a7c15ull);
+   auto la = std::make_unique<impl::Lexicon>(); auto ua = std::make_unique<impl::Translation_unit>(*la);
+   auto sa = std::make_unique<Sweep>(*la, *ua, ra); sa->run_all();
+   auto lb = std::make_unique<impl::Lexicon>(); auto ub = std::make_unique<impl::Translation_unit>(*lb);
+   auto sb = std::make_unique<Sweep>(*lb, *ub, rb); sb->run_all();
+   T.factory_calls += (long long)(sa->made.size() + sb->made.size());
+   sa.reset(); ua.reset(); la.reset();
+   std::ostringstream os;
+   for (auto& m : sb->made) { Ck ck; Sweep::run_check(m, ck); }
+   { const Lexicon& L = *lb; Printer pp(L, os); for (auto& m : sb->made) if (auto e = dynamic_cast<const Expr*>(m.node)) { try { pp << xpr_expr(*e); } catch (const std::logic_error&) { } } try { pp << *ub; } catch (const std::logic_error&) { } }
+   sb->run_all();
+   for (auto& m : sb->made) { Ck ck; Sweep::run_check(m, ck); }
+   T.printed_bytes += (long long)os.str().size();
+   sb.reset(); ub.reset(); lb.reset();
+}
+
 // keys for the leak report blocks this process has written so far (log_path=$VERIF_OUTDIR/san.<pid>)
 std::vector<std::pair<std::string, std::string>> leak_keys(std::size_t& consumed)
 {
@@ -167,7 +188,7 @@ static void body(Ctx& C)
 #if VH_HAVE_ASAN
       const std::size_t b0 = __sanitizer_get_current_allocated_bytes();
 #endif
-      one_life(seed, flavour, T);
+      if (flavour % 5 == 4) two_overlapping_lives(seed, T); else one_life(seed, flavour, T);      // (nothing of the harness's own is allocated between the two readings)
 #if VH_HAVE_ASAN
       const std::size_t b1 = __sanitizer_get_current_allocated_bytes();
       const int leaked = __lsan_do_recoverable_leak_check();
@@ -181,7 +202,7 @@ static void body(Ctx& C)
       }
       C.count("byte_accounting_checks"); C.count("lsan_checks");
 #endif
-      C.count("lexicon_lives");
+      C.count("lexicon_lives"); if (flavour % 5 == 4) C.count("overlapping_lexicon_pairs");
       C.eval(hash_mix(seed, std::uint64_t(flavour)));
 #if VH_HAVE_ASAN
       if (i < 3) C.sample(J().s("kind", "lexicon-life").n("seed", (long long)seed).n("flavour", flavour).n("live_heap_bytes_before", (long long)b0).n("live_heap_bytes_after_destruction", (long long)b1)
@@ -194,6 +215,7 @@ static void body(Ctx& C)
    C.count("factory_calls", T.factory_calls); C.count("strings_interned", T.strings); C.count("string_bytes", T.string_bytes); C.count("string_pools_at_destruction", T.pools);
    C.count("printed_bytes", T.printed_bytes); C.count("extra_units_and_module_units", T.units); C.count("nested_regions", T.regions); C.count("program_steps", T.steps); C.count("strings_at_allocator_threshold_lengths", T.threshold);
    for (auto k : { "lexicon_lives", "factory_calls", "strings_interned", "string_pools_at_destruction", "printed_bytes", "extra_units_and_module_units", "nested_regions", "program_steps" }) C.need(k);
+   C.need("overlapping_lexicon_pairs");
    if (!valgrind_mode) { C.need("byte_accounting_checks"); C.need("lsan_checks"); }
 }
 
